@@ -1,6 +1,6 @@
 import S3V.Thm.FsStorePartCopy
 /-!
-# C18: `delete_objects` over distinct existing keys refines the store
+# C18: `delete_objects` refines the store (any keys: missing, repeated)
 -/
 namespace S3V.FsStore
 open S3V.StoreSpec
@@ -18,15 +18,17 @@ theorem exceptMapM_ok {α β ε : Type} (f : α → Except ε β) (g : α → β
 /-- the path a key names (for keys the backend accepts) -/
 def pathOf (k : Bytes) : Path := (keyPath k).getD []
 
-/-- `delete_objects` comparable: admissible bucket; when it exists the keys are distinct [else
-    fs:delete-objects-duplicate-key], canonical, and each names a file [else fs:delete-objects-omits-missing-keys]. A bucket
-    that does not exist is inside since 0f31b61, with any keys (`NoSuchBucket` on both sides, `InvalidArgument` when a key
-    is refused; before: fs:delete-objects-in-missing-bucket) -/
+/-- `delete_objects` comparable: admissible bucket; when it exists the keys are canonical (or refused by both sides) and none
+    names a directory left behind [fs:leftover-directory]. Keys that do not exist and keys named more than once are inside
+    since 7d30be5 (every requested key is reported as deleted; before: fs:delete-objects-omits-missing-keys,
+    fs:delete-objects-duplicate-key), and so is a request with a key both sides refuse (`InvalidArgument`). A bucket that does
+    not exist is inside since 0f31b61, with any keys (`NoSuchBucket` on both sides, `InvalidArgument` when a key is refused;
+    before: fs:delete-objects-in-missing-bucket) -/
 def DeleteObjectsOk (s : State) (b : Bytes) (keys : List Bytes) : Prop :=
   bucketOk b = true ∧
   match s.tree b with
   | none => True
-  | some t => keys.Nodup ∧ ∀ k ∈ keys, CanonKey k ∧ (keyPath k).isSome = true ∧ isFile (t.node (pathOf k)) = true
+  | some t => ∀ k ∈ keys, CanonKey k ∧ t.node (pathOf k) ≠ some .dir
 
 /-- resolving the keys of `delete_objects` under an admissible bucket: all of them, or `InvalidArgument` -/
 theorem resolveKeys (b : Bytes) (hbd : bucketDir b = some b) : ∀ keys : List Bytes,
@@ -82,17 +84,18 @@ theorem absTree_erase {s : State} (hi : Inv s) {b k : Bytes} {t : Tree} {p : Pat
       intro heq
       exact hne ((hi.paths _ hmem _ hq).join_inj hp (heq.trans hk.symm))
 
-/-- the sequential removal of `delete_objects` over distinct keys that all name files -/
+/-- the removal loop of `delete_objects` over any keys — missing ones, repeated ones — none of which names a directory:
+    every key is reported, and the store loses exactly the named objects -/
 theorem removeFiles_ok (b : Bytes) :
-    ∀ (L : List Bytes) (s : State) (t : Tree) (done : List Bytes), Inv s → s.tree b = some t → L.Nodup →
-      (∀ k ∈ L, CanonKey k ∧ (keyPath k).isSome = true ∧ isFile (t.node (pathOf k)) = true) →
+    ∀ (L : List Bytes) (s : State) (t : Tree) (done : List Bytes), Inv s → s.tree b = some t →
+      (∀ k ∈ L, CanonKey k ∧ (keyPath k).isSome = true ∧ t.node (pathOf k) ≠ some .dir) →
       ∃ s', removeFiles b (L.map fun k => (pathOf k, k)) s done = (s', some (done.reverse ++ L)) ∧
         abs s' = { abs s with buckets := alInsert b (L.foldl (fun os k => alErase k os) (absTree s b t)) (abs s).buckets } ∧
         Inv s' := by
   intro L
   induction L with
   | nil =>
-    intro s t done hi ht _ _
+    intro s t done hi ht _
     refine ⟨s, by simp [removeFiles], ?_, hi⟩
     apply Store.ext'
     · simp only [List.foldl_nil]
@@ -118,16 +121,30 @@ theorem removeFiles_ok (b : Bytes) :
     · rfl
     · rfl
   | cons k rest ih =>
-    intro s t done hi ht hnd hall
-    obtain ⟨hkfresh, hnd'⟩ := List.nodup_cons.mp hnd
+    intro s t done hi ht hall
     obtain ⟨hc, hs, hf⟩ := hall k (by simp)
     obtain ⟨hkp, hjoin, hp⟩ := pathOf_spec hc hs
-    -- the first removal
+    have hnode : s.node b (pathOf k) = t.node (pathOf k) := by simp [State.node, ht]
     cases hn : t.node (pathOf k) with
-    | none => rw [hn] at hf; simp [isFile] at hf
+    | none =>
+      -- nothing at the path (the key never existed, or an earlier item removed it): skipped, reported, nothing changes
+      have hall' : ∀ k' ∈ rest, CanonKey k' ∧ (keyPath k').isSome = true ∧ t.node (pathOf k') ≠ some .dir :=
+        fun k' hk' => hall k' (List.mem_cons_of_mem _ hk')
+      obtain ⟨s', h1, h2, h3⟩ := ih s t (k :: done) hi ht hall'
+      refine ⟨s', ?_, ?_, h3⟩
+      · simp only [List.map_cons, removeFiles, hnode, hn]
+        rw [h1]
+        simp
+      · rw [h2]
+        have hlook : alLookup k (absTree s b t) = none := by
+          have := abs_lookup_obj hi ht hp
+          rw [hjoin, hn] at this
+          exact this
+        simp only [List.foldl_cons]
+        rw [alErase_absent hlook]
     | some n =>
       cases n with
-      | dir => rw [hn] at hf; simp [isFile] at hf
+      | dir => exact absurd hn hf
       | file c =>
         have ht1 : (s.setTree b (alErase (pathOf k) t)).tree b = some (alErase (pathOf k) t) := by
           unfold State.tree State.setTree; exact alLookup_alInsert_self _ _ _
@@ -135,21 +152,20 @@ theorem removeFiles_ok (b : Bytes) :
         have hi1 : Inv (s.setTree b (alErase (pathOf k) t)) :=
           ⟨i1, i2, i3, hi.metaOk, hi.und, hi.pnd, hi.upIds, hi.partIds, hi.upMetaIds⟩
         have hall' : ∀ k' ∈ rest, CanonKey k' ∧ (keyPath k').isSome = true ∧
-            isFile (Tree.node (alErase (pathOf k) t) (pathOf k')) = true := by
+            Tree.node (alErase (pathOf k) t) (pathOf k') ≠ some .dir := by
           intro k' hk'
           obtain ⟨hc', hs', hf'⟩ := hall k' (List.mem_cons_of_mem _ hk')
           refine ⟨hc', hs', ?_⟩
-          have hne : pathOf k' ≠ pathOf k := by
-            intro heq
-            obtain ⟨_, hj', _⟩ := pathOf_spec hc' hs'
-            apply hkfresh
-            rw [← hjoin, ← heq, hj']
-            exact hk'
-          rw [node_alErase_ne hne]; exact hf'
+          by_cases heq : pathOf k' = pathOf k
+          · -- the same key again: by now nothing is there
+            rw [heq]
+            have : Tree.node (alErase (pathOf k) t) (pathOf k) = none := alLookup_alErase_self _ _
+            rw [this]; simp
+          · rw [node_alErase_ne heq]; exact hf'
         obtain ⟨s', h1, h2, h3⟩ := ih (s.setTree b (alErase (pathOf k) t)) (alErase (pathOf k) t) (k :: done) hi1 ht1
-          hnd' hall'
+          hall'
         refine ⟨s', ?_, ?_, h3⟩
-        · simp only [List.map_cons, removeFiles, ht, hn]
+        · simp only [List.map_cons, removeFiles, hnode, hn, ht, Option.getD_some]
           rw [h1]
           simp
         · rw [h2]
@@ -173,45 +189,30 @@ theorem deleteObjects_refines (H : Hashes) (dl : Nat) {s : State} (hi : Inv s) {
     Inv (step H dl s (.deleteObjects b keys)).1 := by
   obtain ⟨hbo, hall⟩ := hg
   have hbd := bucketDir_of_bucketOk hbo
+  -- a key both sides refuse: `InvalidArgument`, whatever the bucket
+  by_cases hk : keys.all keyOk = true
+  case neg => simp [step, StoreSpec.step, resolveKeys b hbd, hk, hbo, hi]
   cases ht : s.tree b with
   | none =>
     have habs : (abs s).bucket b = none := by rw [abs_bucket, ht]; rfl
     have hh : alHas b s.buckets = false := by
       unfold State.tree at ht; simp [alHas, ht]
-    by_cases hk : keys.all keyOk = true
-    · simp [step, StoreSpec.step, resolveKeys b hbd, hk, hbd, hh, hbo, habs, hi]
-    · simp [step, StoreSpec.step, resolveKeys b hbd, hk, hbo, hi]
+    simp [step, StoreSpec.step, resolveKeys b hbd, hk, hbd, hh, hbo, habs, hi]
   | some t =>
     rw [ht] at hall
     simp only at hall
-    obtain ⟨hnd, hall⟩ := hall
     have hh : alHas b s.buckets = true := by
       unfold State.tree at ht; simp [alHas, ht]
     have habs : (abs s).bucket b = some (absTree s b t) := by rw [abs_bucket, ht]; rfl
-    have hmap : keys.mapM (fun k => (objPath b k).map fun r => (r, k)) =
-        .ok (keys.map fun k => (((b, pathOf k), k) : (Bytes × Path) × Bytes)) := by
-      apply exceptMapM_ok
-      intro k hk
-      obtain ⟨hc, hs, _⟩ := hall k hk
-      obtain ⟨hkp, _, _⟩ := pathOf_spec hc hs
-      simp [objPath, hbd, hkp, Except.map]
-    have hexist : (keys.map fun k => (((b, pathOf k), k) : (Bytes × Path) × Bytes)).filter
-        (fun r => (s.node r.1.1 r.1.2).isSome) = keys.map fun k => ((b, pathOf k), k) := by
-      apply List.filter_eq_self.mpr
-      intro r hr
-      obtain ⟨k, hk, rfl⟩ := List.mem_map.mp hr
-      obtain ⟨_, _, hf⟩ := hall k hk
-      simp only [State.node, ht]
-      cases hn : t.node (pathOf k) with
-      | none => rw [hn] at hf; simp [isFile] at hf
-      | some n => rfl
-    obtain ⟨s', h1, h2, h3⟩ := removeFiles_ok b keys s t [] hi ht hnd hall
-    have hkeysOk : keys.all keyOk = true := by
-      rw [List.all_eq_true]
-      intro k hk
-      rw [keyOk_iff_keyPath]; exact (hall k hk).2.1
+    have hall' : ∀ k ∈ keys, CanonKey k ∧ (keyPath k).isSome = true ∧ t.node (pathOf k) ≠ some .dir := by
+      intro k hkm
+      obtain ⟨hc, hf⟩ := hall k hkm
+      refine ⟨hc, ?_, hf⟩
+      rw [← keyOk_iff_keyPath]
+      exact List.all_eq_true.mp hk k hkm
+    obtain ⟨s', h1, h2, h3⟩ := removeFiles_ok b keys s t [] hi ht hall'
     have hstep : step H dl s (.deleteObjects b keys) = (s', .deleted keys) := by
-      simp only [step, hmap, hexist, hbd, hh, List.map_map]
+      simp only [step, resolveKeys b hbd, hk, if_true, hbd, hh, List.map_map]
       have : ((fun r : (Bytes × Path) × Bytes => (r.1.2, r.2)) ∘ fun k => ((b, pathOf k), k)) =
           fun k => (pathOf k, k) := rfl
       rw [this, h1]
@@ -219,7 +220,7 @@ theorem deleteObjects_refines (H : Hashes) (dl : Nat) {s : State} (hi : Inv s) {
     have hspec : StoreSpec.step H (abs s) (.deleteObjects b keys) =
         ({ abs s with buckets := alInsert b (keys.foldl (fun os k => alErase k os) (absTree s b t)) (abs s).buckets },
           .deleted keys) := by
-      simp [StoreSpec.step, hbo, hkeysOk, habs]
+      simp [StoreSpec.step, hbo, hk, habs]
     rw [hstep, hspec]
     exact ⟨rfl, h2, h3⟩
 
